@@ -52,6 +52,38 @@ def readFrame (limit : Nat) (cs : List Bytes) : ReadResult :=
       | none => { out := .error .body, rest := [], req := max headerSize size }
       | some (b, cs2) => { out := .ok b, rest := cs2, req := max headerSize size }
 
+/-! ### a transport that returns its last bytes TOGETHER with the error
+
+The `io.Reader` contract allows `Read` to return `n > 0` and a non-nil error (`io.EOF`) in the same
+call. Go's TCP connections never do (data first, then `0, io.EOF`), other `net.Conn`s may. The loops
+of `readFrom` test `err != nil` before they count the bytes of that call, so the bytes are dropped and
+`readFrom` fails — also when they would have completed the frame. `readNE` / `readFrameE` are
+`readN` / `readFrame` over such a transport: the `Read` that empties the transport reports the error. -/
+
+def readNE : Nat → List Bytes → Option (Bytes × List Bytes)
+  | 0, cs => some ([], cs)
+  | _ + 1, [] => none
+  | n + 1, ch :: cs =>
+    if ch.length = 0 then readNE (n + 1) cs
+    else if ch.length ≤ n + 1 then
+      if cs.flatten.length = 0 then none        -- this `Read` returns (|ch|, EOF): dropped by the loop
+      else match readNE (n + 1 - ch.length) cs with
+        | none => none
+        | some (b, r) => some (ch ++ b, r)
+    else some (ch.take (n + 1), ch.drop (n + 1) :: cs)
+
+/-- `readFrom` over a transport that pairs its last bytes with the error -/
+def readFrameE (limit : Nat) (cs : List Bytes) : ReadResult :=
+  match readNE headerSize cs with
+  | none => { out := .error .header, rest := [], req := headerSize }
+  | some (h, cs1) =>
+    let size := beNat h
+    if size > limit ∨ size = 0 then { out := .error .size, rest := cs1, req := headerSize }
+    else
+      match readNE size cs1 with
+      | none => { out := .error .body, rest := [], req := max headerSize size }
+      | some (b, cs2) => { out := .ok b, rest := cs2, req := max headerSize size }
+
 /-- `writeTo`: `none` = refused (over the limit); otherwise the byte stream put on the wire
 (the Go loop over partial `Write`s emits exactly these bytes, in order). -/
 def writeFrame (limit : Nat) (p : Bytes) : Option Bytes :=
@@ -195,6 +227,11 @@ def step (limit : Nat) (line : String) : String :=
   | ["rd", hs, sizes] =>
     match ofHex hs, csvNat sizes with
     | some bs, some sz => showRead false (readFrame limit (chunkBy (2 * bs.length + 2) sz sz bs))
+    | _, _ => "bad-op"
+  | ["rde", hs, sizes] =>
+    -- the transport hands out its last bytes together with io.EOF
+    match ofHex hs, csvNat sizes with
+    | some bs, some sz => showRead false (readFrameE limit (chunkBy (2 * bs.length + 2) sz sz bs))
     | _, _ => "bad-op"
   | ["rdseq", k, hs, sizes] =>
     match k.toNat?, ofHex hs, csvNat sizes with
